@@ -32,10 +32,13 @@ def check(rep, F, rule='ASCII-ROUND'):
     n = None
     res = {}
 
-    def put(cell, ok, good, bad):
+    def put(cell, ok, good, bad, recognised=True):
+        """ok False with recognised False = the shape is not the one this rule reads: undecided, not a violation"""
+        status = True if ok else (False if recognised else None)
         cur = res.get(cell)
-        if cur is None or (cur[0] and not ok):
-            res[cell] = (ok, good if ok else bad)
+        rank = {True: 0, None: 1, False: 2}
+        if cur is None or rank[status] > rank[cur[0]]:
+            res[cell] = (status, good if ok else bad)
 
     def split_half(t, which):
         """t == split_at(D, n).<which> ?  returns n's linear form or None"""
@@ -63,9 +66,10 @@ def check(rep, F, rule='ASCII-ROUND'):
                                 dflt = N.norm(N.norm(x[1])[2][1])
                                 if not (_is(dflt, 'tuple') and N.norm(dflt[1][0]) == ('const', 48)):
                                     put('insignificant-digit-default', False, '', 'a missing insignificant digit must count as b\'0\'')
-                put('insignificant-digit', ok, 'first byte of D[n ..] minus b\'0\'', 'the insignificant digit must be the first byte of D[n ..] minus b\'0\'; found %s' % TB.show(d)[:90])
+                put('insignificant-digit', ok, 'first byte of D[n ..] minus b\'0\'', 'the insignificant digit must be the first byte of D[n ..] minus b\'0\'; found %s' % TB.show(d)[:90], recognised=(_is(d, 'bin') or _is(d, 'field') or _is(d, 'index') or _is(d, 'const')))
                 clo = N.norm(args[2])
                 okc = False
+                inner = None
                 if _is(clo, 'closure') and clo[1] in F.fns and clo[2]:
                     cap = N.norm(clo[2][0])
                     capok = _is(cap, 'field') and cap[2] == '1' and N._callp(N.norm(cap[1]), r'Option::unwrap_or$') and N._callp(N.norm(N.norm(cap[1])[2][0]), r'split_first$')
@@ -80,7 +84,7 @@ def check(rep, F, rule='ASCII-ROUND'):
                         okc = capok and inner in ('Eq(arg2,48)', 'Eq(48,arg2)')
                     except Undecided:
                         pass
-                put('tail-flag', okc, 'every byte after the insignificant digit == b\'0\'', 'the tail flag must be "every byte of D[n+1 ..] == b\'0\'"')
+                put('tail-flag', okc, 'every byte after the insignificant digit == b\'0\'', 'the tail flag must be "every byte of D[n+1 ..] == b\'0\'"', recognised=(_is(clo, 'closure') and clo[1] in F.fns and bool(clo[2]) and inner is not None))
                 insig = True
             elif c.endswith('InsigData::round_digit') and len(args) == 2:
                 d = N.norm(args[1])
@@ -93,7 +97,7 @@ def check(rep, F, rule='ASCII-ROUND'):
                             ok = True
                         elif N.norm(x[1]) == D and n is not None and N.add(N.add(N.lin(x[2]), n, -1), {1: 1}) == {}:
                             ok = True
-                put('rounded-digit', ok, 'D[n-1] minus b\'0\'', 'the digit handed to round_digit must be D[n-1] minus b\'0\'; found %s' % TB.show(d)[:90])
+                put('rounded-digit', ok, 'D[n-1] minus b\'0\'', 'the digit handed to round_digit must be D[n-1] minus b\'0\'; found %s' % TB.show(d)[:90], recognised=(_is(d, 'bin') and _is(N.norm(d[2]), 'index')) or _is(d, 'index') or _is(d, 'const'))
                 sig = True
             elif c.endswith('Vec::truncate') and len(args) == 2 and N.norm(args[0]) == D and n is not None and 'trunc' not in res:
                 ok = N.add(N.add(N.lin(args[1]), n, -1), {1: 1}) == {}
@@ -114,8 +118,10 @@ def check(rep, F, rule='ASCII-ROUND'):
     for cell, (ok, why) in sorted(res.items()):
         cnt += 1
         key = '%s:positions[%s]' % (fn.key, cell)
-        if ok:
+        if ok is True:
             rep.ok(rule, key, why, fn.where())
+        elif ok is None:
+            rep.undecided(rule, key, 'shape not recognised: ' + why, fn.where())
         else:
             rep.violation(rule, key, why, fn.where())
     return cnt
